@@ -12,9 +12,11 @@ RULE = ("interleavings of up to 4 iterator steps / lazy-sequence indexings (iter
         "parked position, delete the current key, pop the minimum until leaves are emptied and unlinked, clear) on containers "
         "of 0..9 keys in 1..4 leaves, all four kinds, several families, C and Python, in a child process (a crash = failure); "
         "each step must yield an entry, end the iteration or raise RuntimeError/IndexError; afterwards contents as implied "
-        "by the mutations, _check(), check(); distinct by (kind, container, source, interleaving); non-trivial = at least one "
+        "by the mutations, _check(), check(); for C iterators without bounds every next() is compared with Model/Iter.v's "
+        "iter_next evaluated on the leaf store observed just before the call (buckets by identity, including unlinked ones); distinct by (kind, container, source, interleaving); non-trivial = at least one "
         "mutation between two iterator steps")
-ASSUMPTIONS = ["real memory safety of the C process cannot be exhibited by the model; a crash of the child process is the observable",
+ASSUMPTIONS = ["real memory safety of the C process cannot be exhibited by the model; a crash of the child process is the observable; "
+               "what IS tied: the iterator's position logic (BTreeIter_next), compared step by step with iter_next on the observed store",
                "the model theorem covers the bounds discipline of the C sequence finger on an arbitrary (mutated) leaf sequence"]
 
 
@@ -100,6 +102,7 @@ def run(ctx):
     with ThreadPoolExecutor(8) as ex:
         outs = list(ex.map(run_batch, batches))
     hist = {}
+    iterms, imeta = [], []
     for batch, (rc, results, last, err) in zip(batches, outs):
         pending = batch
         while True:
@@ -111,6 +114,10 @@ def run(ctx):
                 ctx.count((j["family"], j["kind"], j["impl"], tuple(j["keys"]), j["source"], json.dumps(j["steps"])), nontrivial=nontriv)
                 for o in r["outcomes"]:
                     hist[o] = hist.get(o, 0) + 1
+                tr = r.get("trace")
+                if tr and tr["steps"]:
+                    iterms.append(itrace_term(tr))
+                    imeta.append(j)
                 if r["bad"]:
                     ctx.oracle_failure("%s:%s:%s:%s" % (j["impl"], j["kind"], j["source"], r["bad"].split(":")[0]),
                                        "%s%s/%s keys=%r %s steps=%r: %s" % (j["family"], j["kind"], j["impl"], j["keys"], j["source"], j["steps"], r["bad"]), {"job": j})
@@ -127,9 +134,30 @@ def run(ctx):
             if not pending:
                 break
             rc, results, last, err = run_batch(pending)
+    # ---- correspondence: the C iterator against Model/Iter.v (iter_next on the observed leaf store)
+    from harness import caseutil
+    hdr = ("From Coq Require Import ZArith List.\nFrom BT Require Import Model.CaseUtil Model.Iter.\n"
+           "Import ListNotations.\nOpen Scope Z_scope.\n")
+    total, badi, errs = caseutil.eval_cases("c15", hdr, "icase_ok", iterms, shard=300, ctype="wicase")
+    for e in errs:
+        ctx.corr_mismatch("c15 case file", e)
+    for i in badi[:5]:
+        ctx.corr_mismatch("Iter model (iter_next on the observed leaf store) vs the C iterator", {"job": imeta[i]})
+    ctx.cov["iterator_traces_compared_with_model"] = total
     ctx.cov["iterator_step_outcomes"] = hist
     ctx.traces = ctx.evaluations
     ctx.sample({"job": jobs[0]})
+
+
+def itrace_term(tr):
+    Z = lambda n: "(%d)" % n   # noqa
+    def leaf(l):
+        return "WLf %d [%s] %s" % (l[0], "; ".join(Z(k) for k in l[1]), "None" if l[2] is None else "(Some %d%%nat)" % l[2])
+    def step(s):
+        out = {"stop": "WStop", "runtime": "WRuntime"}.get(s[1]) or ("(WEntry %s)" % Z(s[2] if s[2] is not None else -999999))
+        return "WIS [%s] %s" % ("; ".join(leaf(l) for l in s[0]), out)
+    return "IC %s %d %d [%s]" % ("None" if tr["cur"] is None else "(Some %d%%nat)" % tr["cur"], tr["last"], tr["lastoff"],
+                                  "; ".join(step(s) for s in tr["steps"]))
 
 
 def replay(ctx, data):
